@@ -259,6 +259,28 @@ public class Outer {
     }
 }
 `},
+	{"BlogService", "interface-with-service-method", `package svc;
+
+public interface BlogService {
+    @ServiceMethod
+    int count();
+
+    void plain();
+}
+`},
+	{"BlogServiceImpl", "implements-service-method-interface", `package impl;
+
+import svc.BlogService;
+
+public class BlogServiceImpl implements BlogService {
+    public int count() {
+        return 1;
+    }
+
+    public void plain() {
+    }
+}
+`},
 }
 
 type c07Op struct {
